@@ -119,7 +119,7 @@ class Prop(object):
     ID = 'C15'
     LEVEL = 'model_checking'
     TECHNIQUE = 'explicit-state breadth-first search over key-management histories on real PGPKey objects (state = replayed history, canonical-state deduplication), reference model in lock-step, invariant evaluated in every state'
-    RULE = ('menu of 24 operations (add identity / image, add signing / encryption subkey, re-certify with new preferences, same-second re-certification, third-party '
+    RULE = ('menu of 25 operations (add identity / image, add signing / encryption subkey, re-certify with new preferences, same-second re-certification, third-party '
             'certification exportable / local / issuer named by key id only, revoke identity / subkey / key, designated revoker, direct-key signature, delete identity, protect, derive and keep / release the public '
             'key, copy, export-import binary / armored) from 3 roots (Ed25519, P-256, RSA-2048), all sequences up to the depth bound, deduplicated on the canonical '
             'export (times ranked, integers masked). One state = one canonical key state; one transition = one real API call replayed on fresh objects.')
